@@ -286,6 +286,7 @@ fn runtime_regex(r: &MatchRow) -> Option<String> {
 fn match_row_json(r: &MatchRow) -> Value {
     json!({
         "runtime_regex": runtime_regex(r),
+        "leftmost_first": crate::lfcheck::facts_json(r.kind, &r.pattern),
         "pattern_kind": r.kind.as_str(),
         "pattern": r.pattern,
         "user_name": r.user_name,
@@ -795,6 +796,7 @@ pub fn facts(l: &Loaded, opts: &FactsOptions) -> Result<Value, String> {
             "implicit": r.implicit,
             "precedence": r.precedence,
             "match_index": r.match_index,
+            "leftmost_first": crate::lfcheck::facts_json(r.kind, &r.pattern),
             "dfa": d.to_json(),
         }));
     }
